@@ -243,8 +243,12 @@ impl<'a, Input: InputIndexer> MatchAttempter<'a, Input> {
     ) -> Option<(Input::Position, Input::Position)> {
         match re.insns.iat(ip + 1) {
             &Insn::Char(c) => {
-                let c = <<Input as InputIndexer>::Element as ElementType>::try_from(c)?;
-                Self::run_scm_loop_impl(input, pos, min, max, dir, scm::Char { c })
+                // A character the input cannot contain never matches: zero iterations.
+                match <<Input as InputIndexer>::Element as ElementType>::try_from(c) {
+                    Some(c) => Self::run_scm_loop_impl(input, pos, min, max, dir, scm::Char { c }),
+                    None if min == 0 => Some((pos, pos)),
+                    None => None,
+                }
             }
             &Insn::Bracket(idx) => {
                 let bc = &re.brackets[idx];
@@ -316,8 +320,10 @@ impl<'a, Input: InputIndexer> MatchAttempter<'a, Input> {
     ) -> Option<Input::Position> {
         let result = match re.insns.iat(ip + 1) {
             &Insn::Char(c) => {
-                let c = <<Input as InputIndexer>::Element as ElementType>::try_from(c)?;
-                Self::compute_max_pos(input, pos, limit, dir, scm::Char { c })
+                match <<Input as InputIndexer>::Element as ElementType>::try_from(c) {
+                    Some(c) => Self::compute_max_pos(input, pos, limit, dir, scm::Char { c }),
+                    None => pos,
+                }
             }
             &Insn::Bracket(idx) => {
                 let bc = &re.brackets[idx];
